@@ -451,7 +451,7 @@ func (c *c04) baselineOK(s *Subject, bl *baseline, st *stats) (TarsStruct, bool)
 		if o.kind != "" {
 			ok = false
 			mode := []string{"ReadFrom", "ReadBlock"}[i]
-			st.report("baseline:"+o.kind+":"+subjCoarse(s), len(bl.b), func() (string, Case) {
+			st.report("baseline:"+o.kind+":"+subjCoarse(s), s.Name, len(bl.b), func() (string, Case) {
 				return c.mkCase(s, "baseline", mode, bl.label, bl.b, bl.b, nil, o.detail)
 			})
 		}
@@ -589,7 +589,7 @@ func (c *c04) judgeInsert(s *Subject, bl *baseline, g0 TarsStruct, ins []inserti
 		if len(ins) > 1 {
 			sig = "insert2:" + ins[0].es.sh.wire.String() + "+" + ins[1].es.sh.wire.String()
 		}
-		st.report(sig, len(in)+1000*(len(ins)-1), func() (string, Case) {
+		st.report(sig, s.Name, len(in)+1000*(len(ins)-1), func() (string, Case) {
 			return c.mkCase(s, "insert", mode, strings.Join(parts, " and "), bl.b, in, nil, o.detail)
 		})
 	}
@@ -688,7 +688,7 @@ func (c *c04) judgeDelete(s *Subject, base, in []byte, want, alt *ref.Value, mut
 		if m != nil {
 			sig += staleClass(m)
 		}
-		st.report(sig, len(in), func() (string, Case) {
+		st.report(sig, s.Name, len(in), func() (string, Case) {
 			return c.mkCase(s, "delete", mode, mutation, base, in, nil, o.detail)
 		})
 	}
@@ -776,7 +776,7 @@ func (c *c04) judgeReuse(s *Subject, a, b []byte, fieldsB []*ref.Node, st *stats
 		st.n["impl_calls"] += 3
 		mode := md.name
 		if err != nil || pan != "" {
-			st.report("reuse:error:"+subjCoarse(s), len(a)+len(b), func() (string, Case) {
+			st.report("reuse:error:"+subjCoarse(s), s.Name, len(a)+len(b), func() (string, Case) {
 				return c.mkCase(s, "reuse", mode, "decode A then B into the same struct", b, b, a, fmt.Sprintf("second decode fails: err=%v panic=%q", err, pan))
 			})
 			continue
@@ -792,7 +792,7 @@ func (c *c04) judgeReuse(s *Subject, a, b []byte, fieldsB []*ref.Node, st *stats
 		}
 		staleMembers(s.Def, fieldsB, vr, vf, "", func(m *ref.Member, path, d string) {
 			sig := "reuse-stale:" + staleClass(m)
-			st.report(sig, len(a)+len(b)+8*len(s.Def.Members), func() (string, Case) {
+			st.report(sig, s.Name, len(a)+len(b)+8*len(s.Def.Members), func() (string, Case) {
 				return c.mkCase(s, "reuse", mode, "decode A then B into the same struct", b, b, a,
 					fmt.Sprintf("optional member %s is absent in B; fresh decode of B gives %s, after decoding A first: %s", path, ref.Format(s.Type, vf), strings.TrimPrefix(d, ": ")))
 			})
@@ -847,6 +847,7 @@ func mainC04(reg Registry) {
 		c.replay(run, subjects)
 		return
 	}
+	hollowCorpus(run, subjects, corpus)
 	start := time.Now()
 	deadline := start.Add(150 * time.Second)
 	if c.thorough {
@@ -939,16 +940,17 @@ func mainC04(reg Registry) {
 		"cases_baseline":                    nc["cases_baseline"],
 		"failing_pairs_explained_by_single": nc["pairs_explained_by_a_single_insertion"],
 		"absent_optional_array_with_go_zero_elements_accepted": nc["accepted_alternative_default"],
-		"cases_by_origin":              perPart,
-		"implementation_calls":         nc["impl_calls"],
-		"units":                        len(units),
-		"field_alphabet":               names,
-		"violating_cases_by_signature": bySig,
-		"corpus_declarations_excluded": excluded,
-		"bootstrap":                    bootFacts(),
-		"enumeration_s":                time.Since(start).Seconds(),
-		"samples":                      samples,
-		"exhaustive":                   exhaustive,
+		"cases_by_origin":               perPart,
+		"implementation_calls":          nc["impl_calls"],
+		"units":                         len(units),
+		"field_alphabet":                names,
+		"violating_cases_by_signature":  bySig,
+		"structs_affected_by_signature": affected(total, subjects),
+		"corpus_declarations_excluded":  excluded,
+		"bootstrap":                     bootFacts(),
+		"enumeration_s":                 time.Since(start).Seconds(),
+		"samples":                       samples,
+		"exhaustive":                    exhaustive,
 		"bounds": map[string]any{
 			"baseline_values":    "all-default, all-non-default and (two or more members) the two alternating mixes",
 			"baseline_encodings": "reference canonical, reference with explicit defaults, the implementation's own WriteTo; deduplicated by bytes",
@@ -1013,7 +1015,7 @@ func (c *c04) replay(run *common.Run, subjects []*Subject) {
 		for i, o := range []outcome{from, block} {
 			if o.kind != "" {
 				mode := []string{"ReadFrom", "ReadBlock"}[i]
-				st.report(cs.Sig, len(in), func() (string, Case) { return c.mkCase(s, cs.Kind, mode, cs.Mutation, base, in, nil, o.detail) })
+				st.report(cs.Sig, s.Name, len(in), func() (string, Case) { return c.mkCase(s, cs.Kind, mode, cs.Mutation, base, in, nil, o.detail) })
 			}
 		}
 	case "delete":
@@ -1024,7 +1026,7 @@ func (c *c04) replay(run *common.Run, subjects []*Subject) {
 		for i, o := range []outcome{from, block} {
 			if o.kind != "" {
 				mode := []string{"ReadFrom", "ReadBlock"}[i]
-				st.report(cs.Sig, len(in), func() (string, Case) { return c.mkCase(s, cs.Kind, mode, cs.Mutation, base, in, nil, o.detail) })
+				st.report(cs.Sig, s.Name, len(in), func() (string, Case) { return c.mkCase(s, cs.Kind, mode, cs.Mutation, base, in, nil, o.detail) })
 			}
 		}
 	case "reuse":
